@@ -939,6 +939,97 @@ def check_param_history(ctx, res, case, table):
     ctx.batch.add({'op': 'param_history', 'algos': algos, 'defaults': entries, 'ops': real['model_ops']}, cb)
 
 
+# ---- the NAME of the parameter file
+
+W_NAME = 'Parameters.dump_file / read_file: name of the file'
+W_NAME_CHARS = 'Parameters.read_file silently keeps its values for a file name is_valid_filename refuses, dump_file writes under it'
+PARAM_FILE_NAMES = ['p.toml', 'aux.toml', 'con.toml', 'Aux.v2.toml', 'NUL', 'nul.txt', 'prn', 'com1.toml', 'LPT9.x.toml', 'a.b.c.toml', '.hidden.toml', '.toml', '-dash.toml',
+                    'sp ace.toml', ' lead.toml', 'trail.toml ', 'β-ü.toml', 'UPPER.TOML', 'x' * 200 + '.toml', 'y' * 250 + '.toml', 'z' * 251 + '.toml', 'toml', '~tilde.toml',
+                    'dot.', 'a:b.toml', 'q?.toml', 's*.toml', 'pipe|.toml', 'lt<.toml', 'gt>.toml', 'quo".toml', 'back\\slash.toml', 'sub/aux.toml', 'sub/p.toml', 'sub/a:b.toml',
+                    "apo'.toml", 'hash#.toml', 'semi;.toml', 'eq=.toml', 'biogeme.toml', 'Biogeme.TOML', 'con', 'auxiliary.toml', 'com10.toml', 'con .toml']
+NAME_PIECES = ['a', 'B', '.', '.', '..', ' ', '-', '_', 'aux', 'CON', 'nul', 'com1', 'lpt2', 'é', '≠', '~', ':', '?', '*', '"', 'toml', '.toml', '0', 'x' * 60]
+
+
+def invalid_name_chars(case):
+    """MATCHER of FC14-7: the base name of the file holds one of the characters is_valid_filename refuses"""
+    return (case or {}).get('kind') == 'param_name' and any(c in '<>:"/\\|?*' for c in os.path.basename((case or {}).get('name', '')))
+
+
+def gen_param_name_case(rng, algos, entries, name=None):
+    if name is None:
+        name = ''.join(rng.choice(NAME_PIECES) for _ in range(rng.randint(1, 5)))
+        if rng.random() < 0.15:
+            name = 'sub/' + name
+    assigns = []
+    for e in rng.sample(entries, 3):
+        assigns.append({'sec': e['sec'], 'name': e['name'], 'value': gen_admissible(rng, e, algos)})
+    return {'kind': 'param_name', 'name': name, 'assigns': assigns, 'biogeme': rng.random() < 0.25}
+
+
+def run_param_name_case(case):
+    from biogeme.parameters import Parameters
+
+    name = case['name']
+    with core.scratch(None):
+        os.mkdir('sub')
+        P = Parameters()
+        for a in case['assigns']:
+            outcome_of(lambda: P.set_value(a['name'], val2py(a['value']), section=a['sec']))
+        out = {'before': state_of(P), 'defaults': state_of(Parameters())}
+        try:
+            out['dump'] = outcome_of(lambda: P.dump_file(name))
+        except BaseException as e:  # noqa: BLE001
+            out['dump'] = 'other:' + type(e).__name__
+        out['written'] = os.path.isfile(name)
+        if out['written']:
+            Q = Parameters()
+            out['read'] = outcome_of(lambda: Q.read_file(name))
+            out['after'] = state_of(Q)
+            out['others'] = sorted(p for p in os.listdir('.') + ['sub/' + q for q in os.listdir('sub')] if p not in (name, 'sub'))
+            nt = val2py(out['before'].get('MultiThreading/number_of_threads', {'i': 0}))
+            if case.get('biogeme') and isinstance(nt, int) and 0 <= nt <= 4096:
+                out['biogeme'] = biogeme_on_file(name)
+    return out
+
+
+def check_param_name_case(ctx, res, case, table):
+    from biogeme.tools.files import is_valid_filename
+
+    real = run_param_name_case(case)
+    base = os.path.basename(case['name'])
+    res.count(case, nontrivial=case['name'] != 'p.toml')
+    res.tally('param file name:' + ('written' if real['written'] else f'dump refused ({real["dump"]})'))
+    changed = real['before'] != real['defaults']
+    w = W_NAME_CHARS if invalid_name_chars(case) else W_NAME
+    # ---- oracle: whatever name dump_file accepted reads back (or dump_file refuses the name)
+    if real['written']:
+        if real.get('read') != 'ok':
+            res.violate(f'the parameter file {case["name"]!r} written by dump_file cannot be read: {real.get("read")}', case, real.get('read'), 'ok', where=w)
+        elif real['after'] != real['before']:
+            res.violate(f'the parameter file {case["name"]!r} written by dump_file does not read back: {sorted(_diff(real["after"], real["before"]))[:3]}'
+                        + (' (the defaults are kept)' if real['after'] == real['defaults'] else ''), case, _diff(real['after'], real['before']), 'the dumped values', where=w)
+        bg = real.get('biogeme')
+        if bg is not None and 'error' not in bg and bg['state'] != real['before']:
+            res.violate(f'a BIOGEME object built on the parameter file {case["name"]!r} does not hold the dumped values', case, _diff(bg['state'], real['before']), '', where=w)
+        if real.get('others'):
+            res.violate(f'reading {case["name"]!r} created other files: {real["others"]}', case, real['others'], [], where=w)
+    elif real['dump'] == 'ok':
+        res.violate(f'dump_file({case["name"]!r}) reports success but wrote no file of that name', case, real['dump'], 'a file', where=w)
+    valid = bool(is_valid_filename(base)[0])
+
+    def cb(ans):
+        mv = ans.get('valid', [None])[0]
+        if mv != valid:
+            res.diverge('is_valid_filename vs Params.validFileName', case, mv, valid)
+        elif real['written'] and real.get('read') == 'ok' and changed:
+            # model of the code as it is: a refused name leaves the reader with its own values, an accepted one gives the dumped ones
+            exp = real['before'] if mv else real['defaults']
+            if real['after'] != exp:
+                res.diverge('values after read_file(name) vs Params.readNamed', case, 'dumped values' if mv else 'values of the reader', _diff(real['after'], exp), where=w if not mv else '')
+
+    ctx.batch.add({'op': 'valid_names', 'names': [base]}, cb)
+
+
 # ---- hand-written files
 
 
@@ -1428,6 +1519,9 @@ def latex_suffix_case(case):
 
 
 W_ROUNDTRIP = 'bioResults.write_pickle / bioResults(pickle_file=...)'
+# names of models = names of the result, report and pickle files: several dots, device-like names, other case, spaces, unicode, leading dot / dash,
+# characters that some systems refuse, long names
+MODEL_TAGS = ['r', 'res ults', 'r~00', 'β', 'aux', 'CON', 'nul.v2', 'Com1', 'a.b.c', '.hidden', '-dash', 'a:b', 'q?', 's*r', 'UPPER', 'ünï çode', 'm' * 120, 'x.pickle', 'lpt9.toml']
 
 # view of the Lean model (ResObj.views) -> key of the snapshot
 MODEL_VIEWS = {'short_summary': 'short_summary', 'str': 'str', 'general': 'general', 'general_text': 'general_text', 'estimated': 'estimated_all',
@@ -1606,7 +1700,10 @@ def check_results_object(ctx, res, case, r, names, values, active=None, stub=Tru
 
     direct = column(attempt(lambda: compiled({'the model': r}, {})), 'the model')
     in_dir = column(attempt(lambda: [frame(compile_results_in_directory()[0]), None]), fname)
-    if direct != in_dir:
+    if fname.startswith('.'):
+        # compile_results_in_directory lists the directory with glob('*.pickle'), which by convention leaves out hidden files (like files_of_type(all_files=True))
+        res.tally('results:hidden pickle file, not listed by compile_results_in_directory')
+    elif direct != in_dir:
         res.violate('compile_results_in_directory: the column of the saved file differs from the table of the results object', case, _short(in_dir), _short(direct), where=W_ROUNDTRIP)
     # the statistics did not change by being saved either
     drift = [k for k in before if k not in ('raw', 'attrs') and before[k] != saved[k]]
@@ -1672,6 +1769,27 @@ def gen_kind_spec(rng, tag, flags=None):
     return spec
 
 
+def gen_large_spec(rng, tag, k, flags=None):
+    """a results object with MANY parameters (the reports must list every one of them, whatever their number)"""
+    spec = gen_results_spec(rng, tag)
+    stems = ['b', 'beta_time_', 'asc', 'B', 'β', 'x y ', 'mu&']
+    names = []
+    for i in range(k):
+        names.append(f'{stems[i % len(stems)]}{i + 1}')
+    rng.shuffle(names)   # appearance order is neither alphabetical nor numerical (b10 before b2)
+    values = [rng.choice(SAFE_VALUES) if rng.random() < 0.6 else round(rng.uniform(-3, 3), 3) for _ in range(k)]
+    A = np.array([[rng.randint(-8, 8) / 4.0 for _ in range(k)] for _ in range(k)])
+    Bm = np.array([[rng.randint(-8, 8) / 4.0 for _ in range(k)] for _ in range(k + 1)])
+    spec.update({'names': names, 'values': values, 'bounds': [[None, None] if rng.random() < 0.85 else [values[i], values[i] + 1.0] for i in range(k)],
+                 'H': (-(A @ A.T + 0.5 * np.eye(k))).tolist(), 'hkind': 'regular', 'bhhh': (Bm.T @ Bm).tolist(), 'g': [0.0] * k,
+                 'bootstrap': None if rng.random() < 0.5 else [[values[j] + rng.randint(-8, 8) / 16.0 for j in range(k)] for _ in range(3)],
+                 'sampleSize': 10 * k + 7, 'numberOfObservations': 10 * k + 7, 'large': True})
+    if flags and not flags.get('H', True):
+        spec['H'] = spec['bhhh'] = spec['g'] = None
+        spec['hkind'] = 'none'
+    return spec
+
+
 def results_case_stub(ctx, res, spec):
     with core.scratch(TOML):
         try:
@@ -1693,6 +1811,11 @@ def results_case_stub(ctx, res, spec):
         res.tally('results:' + spec['hkind'])
         res.tally('results:K=%d' % len(spec['names']))
         check_results_object(ctx, res, spec, r, spec['names'], [float(v) for v in spec['values']], active)
+        if spec.get('large'):
+            # the short summary speaks of the model as a whole: it must at least state the number of parameters
+            summary = attempt(r.short_summary)
+            if f'Nbr of parameters:\t\t{len(spec["names"])}' not in str(summary):
+                res.violate('short_summary does not state the number of estimated parameters', spec, _short(summary), len(spec['names']), where='bioResults.short_summary')
 
 
 def results_case_estimation(ctx, res, case):
@@ -2245,6 +2368,8 @@ CORPUS = [
     {'kind': 'param_history', 'ops': [{'op': 'read', 'doc': []}, {'op': 'set', 'sec': None, 'name': 'seed', 'value': {'i': 7}}, {'op': 'dump'},
                                       {'op': 'add', 'name': 'seed', 'from': 'MonteCarlo', 'sec': 'UserSection'}, {'op': 'set', 'sec': 'UserSection', 'name': 'seed', 'value': {'i': 9}},
                                       {'op': 'read_missing'}, {'op': 'set', 'sec': 'Output', 'name': 'generate_html', 'value': {'b': False}}, {'op': 'dump'}]},
+    # known finding FC14-7: a file name dump_file accepts and read_file silently ignores
+    {'kind': 'param_name', 'name': 'a:b.toml', 'assigns': [{'sec': 'MonteCarlo', 'name': 'seed', 'value': {'i': 7}}], 'biogeme': True},
     # known findings
     {'kind': 'results_latex', 'value': 200000.0},
     {'kind': 'flat', 'n': 2},
@@ -2292,6 +2417,8 @@ def _run_case(ctx, res, case, table):
         check_file_case(ctx, res, case, table)
     elif k == 'param_history':
         check_param_history(ctx, res, case, table)
+    elif k == 'param_name':
+        check_param_name_case(ctx, res, case, table)
     elif k == 'results':
         results_case_stub(ctx, res, case)
     elif k == 'results_latex':
@@ -2315,7 +2442,7 @@ def _run_case(ctx, res, case, table):
         raise ValueError(k)
 
 
-MATCHERS = {'extra_optimization_algorithm': extra_optimization_algorithm, 'latex_suffix': latex_suffix_case, 'more_than_101_pickles': more_than_101_pickles, 'glob_special_model_name': glob_special_case}
+MATCHERS = {'invalid_name_chars': invalid_name_chars, 'extra_optimization_algorithm': extra_optimization_algorithm, 'latex_suffix': latex_suffix_case, 'more_than_101_pickles': more_than_101_pickles, 'glob_special_model_name': glob_special_case}
 
 
 def _guard_batch(ctx, res):
@@ -2371,8 +2498,12 @@ def check(ctx) -> Result:
         run_case(ctx, res, gen_file_case(rng, *table), table)
     for _ in range(ctx.n(150, 2000)):
         run_case(ctx, res, gen_param_history(rng, *table), table)
-    for i in range(ctx.n(100, 1200)):
-        run_case(ctx, res, gen_results_spec(rng, rng.choice(['r', 'res ults', 'r~00', 'β'])), table)
+    for nm in PARAM_FILE_NAMES:
+        run_case(ctx, res, gen_param_name_case(rng, *table, name=nm), table)
+    for _ in range(ctx.n(60, 800)):
+        run_case(ctx, res, gen_param_name_case(rng, *table), table)
+    for i in range(ctx.n(80, 1200)):
+        run_case(ctx, res, gen_results_spec(rng, MODEL_TAGS[i % len(MODEL_TAGS)] if i < 2 * len(MODEL_TAGS) else rng.choice(MODEL_TAGS)), table)
     # every kind of results object the constructor admits (2^6 combinations of optional inputs, 1-5 parameters)
     combos = [(h, g, i, n, b) for h in (False, True) for g in (False, True) for i in (False, True) for n in (False, True) for b in (False, True)]
     rng.shuffle(combos)
@@ -2382,6 +2513,10 @@ def check(ctx) -> Result:
             h, g, i, n, b = combos[j]
             flags = {'H': h, 'bhhh': h, 'g': g, 'initLogLike': i, 'nullLogLike': n, 'bootstrap': b, 'userNotes': rng.random() < 0.5}
         run_case(ctx, res, gen_kind_spec(rng, rng.choice(['k', 'k k', 'k~00']), flags), table)
+    # report completeness at large sizes: around the default of max_number_parameters_to_report (15) and well above
+    for k in ([15, 16, 40] if ctx.quick else [15, 16, 17, 24, 31, 40, 40, 64]):
+        run_case(ctx, res, gen_large_spec(rng, rng.choice(MODEL_TAGS), k), table)
+    run_case(ctx, res, gen_large_spec(rng, 'big q', rng.choice([16, 20]), {'H': False}), table)
     for i in range(ctx.n(5, 40)):
         names = rng.sample(NAME_POOL, rng.randint(1, 3))
         run_case(ctx, res, {'kind': 'estimation', 'model': rng.choice(['qm', 'q m']), 'names': names, 'rows': rng.randint(8, 40), 'seed': rng.randint(1, 10**6),
@@ -2417,7 +2552,7 @@ def search(ctx, res, broken):
     (no Lean needed: the callbacks of the model are dropped)"""
     rng = core.rng_for('C14-search', ctx.seed)
     table = live_table()
-    gens = [lambda: gen_param_case(rng, *table) if rng.random() < 0.5 else gen_param_history(rng, *table), lambda: gen_file_case(rng, *table), lambda: gen_results_spec(rng, 's'),
+    gens = [lambda: gen_param_case(rng, *table) if rng.random() < 0.4 else gen_param_history(rng, *table) if rng.random() < 0.6 else gen_param_name_case(rng, *table, name=rng.choice(PARAM_FILE_NAMES + [None])), lambda: gen_file_case(rng, *table), lambda: gen_results_spec(rng, 's'),
             lambda: gen_history(rng), lambda: gen_recycle(rng, rng.choice([1, 2, 12, 101])),
             lambda: gen_history(rng, long=True), lambda: gen_backup_history(rng), lambda: gen_recycle(rng), lambda: gen_kind_spec(rng, 's k')]
     weights = [40, 20, 25, 25, 3, 2, 20, 10, 30]
